@@ -61,6 +61,31 @@ FREES: List[Atom] = [["txn FirstValid", "int 7", ">"], ["txn LastValid", "int 7"
                      ["txn AssetAmount", "int 7", ">"], ["txn VoteFirst", "int 7", ">"], ["txn VoteLast", "int 7", ">"]]
 
 
+# L0 - rare but valid layouts that the statement grammar of core.py never produces: a conditional
+# branch as the very last instruction (either polarity, target before it), a branch to the next
+# line, a backward branch into an accepting block, the check after a label that is only fallen into.
+LAYOUTS: List[str] = [
+    "b m\nok:\nint 1\nreturn\nm:\n{ATOM}\nbnz ok",
+    "b m\nok:\nint 1\nreturn\nm:\n{ATOM}\n!\nbz ok",
+    "b m\nok:\nint 1\nreturn\nm:\nint 1\n{ATOM}\nbz ok",
+    "{ATOM}\nbnz n\nn:\nint 1\nreturn",
+    "{ATOM}\nbz n\nn:\nint 1\nreturn",
+    "b m\nok:\nint 1\nreturn\nm:\n{ATOM}\nbnz ok\nerr",
+    "b m\nbad:\nerr\nm:\n{ATOM}\nbz bad\nint 1\nreturn",
+    "int 7\npop\nl:\n{ATOM}\nassert\nint 1\nreturn",
+    "callsub s\nint 1\nreturn\ns:\n{ATOM}\nbz t\nretsub\nt:\nerr",
+    "callsub s\nint 1\nreturn\ns:\n{ATOM}\nbnz t\nerr\nt:\nretsub",
+]
+
+
+def layouts(alphabet: Sequence[Atom], version: int = 8) -> Iterator[str]:
+    for t in LAYOUTS:
+        for a in alphabet:
+            if any("@L" in l for l in a):
+                continue
+            yield f"#pragma version {version}\n" + t.replace("{ATOM}", "\n".join(a)) + "\n"
+
+
 def call_chains(tracked: Atom) -> Iterator[Tuple[Any, List[Atom]]]:
     """L4 - call chains main -> S0 -> S1 with optional checks / early exits before and after each
     call and in the innermost body (callees that end the program themselves, checks that only
@@ -116,6 +141,12 @@ def layered(  # pylint: disable=too-many-arguments,too-many-locals,too-many-bran
                 seen.add(h)
                 yield s
 
+    # L0
+    for s in layouts(full, version):
+        h = _h(s)
+        if h not in seen:
+            seen.add(h)
+            yield s
     # L1
     o0 = core.Opts(kinds=kinds, cond_level=0, nsubs=0)
     for size in (1, 2):
